@@ -146,6 +146,14 @@ func run(c *vk.Ctx) {
 	for _, n := range names {
 		base := bs[n]
 		mo := maintOps("i")
+		// precision compression is maintenance too: insert it where the index is float32
+		if c0 := base[0].Cfg; c0 != nil && c0.Prec == "float32" && !hasCompress(base) {
+			// (int8 compression of cosine indexes is exercised by its own base history,
+			// whose vectors stay inside the range the quantiser is trained on)
+			if c0.Metric == "euclidean" {
+				mo = append(mo, hx.Op{K: hx.Compress, I: "i", S: "float16"})
+			}
+		}
 		hx.Placements(base, mo, k, 1, func(h []hx.Op) bool {
 			if c.Mine() {
 				runOne(c, h, mode, "B:"+n)
@@ -164,6 +172,15 @@ func run(c *vk.Ctx) {
 	}
 	c.F.Extra["familyB_bases"] = len(names)
 	c.F.Extra["familyB_k"] = k
+}
+
+func hasCompress(h []hx.Op) bool {
+	for _, o := range h {
+		if o.K == hx.Compress {
+			return true
+		}
+	}
+	return false
 }
 
 func sortStrings(s []string) {
